@@ -65,9 +65,9 @@ func (x *Exec) extCall(st *State, call *ast.CallExpr, fn *types.Func, args []*Te
 	case "time.Sleep", "time.Now", "time.Since", "time.Duration.Seconds", "time.Duration.Milliseconds", "time.Time.Sub", "time.Time.Unix", "time.Time.UnixMilli":
 		return res()
 	case "context.Cause":
-		// assumed: called after the context's Done channel was closed, where Cause is non-nil
+		// the cause is non-nil exactly when the context is cancelled (ghost predicate ctx.cancelled)
 		r := res()
-		st.assume(Neq(r[0], ifaceNil))
+		st.assume(Eq(Neq(r[0], ifaceNil), x.app("ctx.cancelled", SBool, args[0])))
 		return r
 	case "math.Pow", "math.Trunc", "math.Round", "math.Floor", "math.Ceil", "math.Abs", "math.Sqrt", "math.Mod", "math.IsNaN", "math.IsInf", "math.Log", "math.Sin", "math.Cos", "math.Tan", "math.Max", "math.Min", "math.Inf", "math.NaN":
 		return []*Term{x.pureApp(st, full, sig, args)}
